@@ -520,17 +520,19 @@ func (m *Memberlist) UpdateNode(timeout time.Duration) error {
 		}
 	}
 
-	// Get the existing node
+	// Get the existing node's address. The record is shared with the
+	// protocol handlers, so copy what we need while holding the lock.
 	m.nodeLock.RLock()
 	state := m.nodeMap[m.config.Name]
+	addr, port := state.Addr, state.Port
 	m.nodeLock.RUnlock()
 
 	// Format a new alive message
 	a := alive{
 		Incarnation: m.nextIncarnation(),
 		Node:        m.config.Name,
-		Addr:        state.Addr,
-		Port:        state.Port,
+		Addr:        addr,
+		Port:        port,
 		Meta:        meta,
 		Vsn:         m.config.BuildVsnArray(),
 	}
